@@ -45,37 +45,57 @@ def concretise(classes, rng, as_bytes=False):
     return (b"" if as_bytes else "").join(parts)
 
 
-def expr_for(ctx, k):
-    """(test body template, function building the expected value of the snapshot argument)"""
+def expr_for(ctx, k, old=None):
+    """(test body template, function building the expected value of the snapshot argument); old = the literal text
+    of a value the snapshot already holds (the new value then arrives through `fix`), None = empty snapshot"""
     v = "V[%d]" % k
+    o = old
+
+    def arg(text):
+        return text if o is not None else ""
     if ctx == "top":
-        return "assert %s == snapshot()" % v, lambda s: s
+        return "assert %s == snapshot(%s)" % (v, arg(o)), lambda s: s
     if ctx == "list":
-        return "assert [%s, 1] == snapshot()" % v, lambda s: [s, 1]
+        return "assert [%s, 1] == snapshot(%s)" % (v, arg("[%s, 1]" % o)), lambda s: [s, 1]
     if ctx == "dictval":
-        return "assert {'k': %s} == snapshot()" % v, lambda s: {"k": s}
+        return "assert {'k': %s} == snapshot(%s)" % (v, arg("{'k': %s}" % o)), lambda s: {"k": s}
     if ctx == "dictkey":
-        return "assert {%s: 0} == snapshot()" % v, lambda s: {s: 0}
+        return "assert {%s: 0} == snapshot(%s)" % (v, arg("{%s: 0}" % o)), lambda s: {s: 0}
     if ctx == "tuple":
-        return "assert (%s,) == snapshot()" % v, lambda s: (s,)
+        return "assert (%s,) == snapshot(%s)" % (v, arg("(%s,)" % o)), lambda s: (s,)
     if ctx == "in":
+        if o is not None:
+            return "assert %s in snapshot([%s])" % (v, o), lambda s: [OLD_VALUE(s), s]
         return "assert %s in snapshot()" % v, lambda s: [s]
     if ctx == "getitem":
-        return "assert snapshot()['k'] == %s" % v, lambda s: {"k": s}
+        return "assert snapshot(%s)['k'] == %s" % (arg("{'k': %s}" % o), v), lambda s: {"k": s}
     if ctx == "nested2":
-        return "assert [[%s], {'a': (%s, 0)}] == snapshot()" % (v, v), lambda s: [[s], {"a": (s, 0)}]
+        return ("assert [[%s], {'a': (%s, 0)}] == snapshot(%s)" % (v, v, arg("[[%s], {'a': (%s, 0)}]" % (o, o))),
+                lambda s: [[s], {"a": (s, 0)}])
     raise ValueError(ctx)
 
 
-def render(values, ctxs):
+def OLD_VALUE(s):
+    return b"#old#" if isinstance(s, bytes) else "#old#"
+
+
+def render(values, ctxs, enc="utf-8", path="create"):
     out = ["from inline_snapshot import snapshot\n\nV = [\n"]
+    if enc == "latin-1":
+        out.insert(0, "# -*- coding: latin-1 -*-\n# caf\xe9\n")
+    elif enc == "bom":
+        out.insert(0, "\ufeff")
     for v in values:
         out.append("    %r,\n" % (v,))
     out.append("]\n\n\n")
     for k, ctx in enumerate(ctxs):
-        body, _ = expr_for(ctx, k)
+        body, _ = expr_for(ctx, k, None if path == "create" else repr(OLD_VALUE(values[k])))
         out.append("def test_%d():\n    %s\n\n\n" % (k, body))
-    return "".join(out)
+    text = "".join(out)
+    if enc == "latin-1":
+        # exactly what is on disk (harness/srcio.py): other characters only occur inside plain string literals
+        text = text.encode("latin-1", "backslashreplace").decode("latin-1")
+    return text
 
 
 def literal_forms(arg_text):
@@ -106,22 +126,31 @@ def run_batch(args):
         values.append(v)
         ctxs.append(ctx)
         metas.append(c)
-    text = render(values, ctxs)
+    # the encoding of the test file: utf-8, declared latin-1 (PEP 263), utf-8 with a byte order mark
+    enc = rng.choice(["utf-8", "utf-8", "utf-8", "utf-8", "latin-1", "latin-1", "bom"])
+    enc = batch[0].get("enc") or enc
+    # how the value gets into the snapshot: created in an empty one, or fixed into one that holds another value
+    path = rng.choice(["create", "create", "fix"])
+    path = batch[0].get("path") or path
+    text = render(values, ctxs, enc, path)
     kw = {}
     if fmt == "none":
         kw["no_black"] = True
     elif fmt == "cmd":
         kw["config"] = {"format_command": "cat"}
     try:
-        obs = inline_driver.run_session({"test_case.py": text}, ["create"], **kw)
+        obs = inline_driver.run_session({"test_case.py": text}, ["create"] if path == "create" else ["fix"], **kw)
     except Exception as e:  # noqa
         return [{"error": repr(e)}]
     res = []
     if obs.get("finish_error") or obs.get("import_error"):
         err = obs.get("finish_error") or obs.get("import_error")
-        return [{"h": c["h"], "mism": [{"clause": "finish", "props": ["C18", "C12"], "detail": err[:2], "value": repr(v), "ctx": x, "fmt": fmt}]}
+        return [{"h": c["h"], "mism": [{"clause": "finish", "props": ["C18", "C12"], "detail": err[:2], "value": repr(v), "ctx": x, "fmt": fmt, "enc": enc, "path": path}]}
                 for c, v, x in zip(batch, values, ctxs)]
     new = obs["files"]["test_case.py"]
+    if isinstance(new, dict):
+        return [{"h": c["h"], "mism": [{"clause": "undecodable", "props": ["C12", "C03"], "detail": new["bytes"][:200], "value": repr(v), "ctx": x, "fmt": fmt, "enc": enc}]}
+                for c, v, x in zip(batch, values, ctxs)]
     try:
         args = inline_driver.snapshot_args(new)
     except SyntaxError as e:
@@ -129,7 +158,7 @@ def run_batch(args):
                 for c, v, x in zip(batch, values, ctxs)]
     for k, (c, v, ctx) in enumerate(zip(batch, values, ctxs)):
         mism = []
-        _, expected = expr_for(ctx, k)
+        _, expected = expr_for(ctx, k, None if path == "create" else repr(OLD_VALUE(v)))
         want = expected(v)
         if k >= len(args) or args[k][3] is None:
             mism.append({"clause": "not-created", "props": ["C01", "C12"], "detail": {}, "value": repr(v), "ctx": ctx, "fmt": fmt})
@@ -140,8 +169,8 @@ def run_batch(args):
             except Exception as e:  # noqa
                 got, ok = "literal_eval: %r" % e, False
             if not ok:
-                mism.append({"clause": "value", "props": ["C12", "C01"], "value": repr(v), "ctx": ctx, "fmt": fmt,
-                             "detail": {"written": args[k][2], "reads_back": repr(got)}})
+                mism.append({"clause": "value", "props": ["C12", "C01"], "value": repr(v), "ctx": ctx, "fmt": fmt, "enc": enc,
+                             "path": path, "detail": {"written": args[k][2], "reads_back": repr(got), "file_encoding": enc, "path": path}})
             elif "triple" in c and isinstance(v, str) and fmt != "cmd":
                 forms = literal_forms(args[k][2])
                 # every occurrence of the value in the argument is one string token
@@ -149,7 +178,7 @@ def run_batch(args):
                 if forms is not None and forms and any(f != multi for f in forms if ctx != "dictval" or True):
                     # dict keys 'k' / 'a' are never multi-line: judge only tokens that can hold v
                     cand = [f for f in forms]
-                    n_other = {"dictval": 1, "getitem": 1, "nested2": 1}.get(ctx, 0)
+                    n_other = {"dictval": 1, "getitem": 1, "nested2": 1}.get(ctx, 0) + (1 if ctx == "in" and path == "fix" else 0)
                     if sum(1 for f in cand if f) != (len(cand) - n_other if multi else 0):
                         mism.append({"clause": "form", "props": ["C12"], "value": repr(v), "ctx": ctx, "fmt": fmt,
                                      "detail": {"written": args[k][2], "multi_line_value": multi, "spec_triple": c["triple"]}})
